@@ -7,7 +7,8 @@ WT=$(mktemp -d /tmp/confirm_${NAME}_XXXX)
 git -C /repo worktree add -q --detach "$WT/wt" HEAD || exit 9
 cd "$WT/wt"
 PYTHONPATH="$WT/wt" /venv/bin/python "$SD/demo.py" > "$WT/demo_without.log" 2>&1; W0=$?
-git apply "$SD/patch.diff" || { echo "patch does not apply"; git -C /repo worktree remove --force "$WT/wt"; rm -rf "$WT"; exit 9; }
+git apply "$SD/patch.diff" 2>/dev/null || patch -p1 -s --fuzz=3 -i "$SD/patch.diff" > /dev/null 2>&1 || { echo "$NAME patch does not apply to the current HEAD (the repository was repaired in the same place after the seed was made)"; git -C /repo worktree remove --force "$WT/wt"; rm -rf "$WT"; exit 9; }
+find . -name "*.orig" -o -name "*.rej" | xargs rm -f
 PYTHONPATH="$WT/wt" /venv/bin/python "$SD/demo.py" > "$WT/demo_with.log" 2>&1; W1=$?
 TESTS="skipped"
 if [ "$2" != "--no-tests" ]; then
